@@ -226,8 +226,15 @@ open Lean Elab Tactic Meta in
     the record-update lemmas match anything) -/
 elab "guard_mk" : tactic => do
   let g ← instantiateMVars (← getMainTarget)
-  unless g.isApp && g.appArg!.getAppFn.isConstOf ``Streams.mk do
+  unless g.isApp && g.appArg!.consumeMData.getAppFn.isConstOf ``Streams.mk do
     throwError "guard_mk: not a record update"
+
+open Lean Elab Tactic Meta in
+/-- the opposite of `guard_mk` -/
+elab "guard_not_mk" : tactic => do
+  let g ← instantiateMVars (← getMainTarget)
+  if g.isApp && g.appArg!.consumeMData.getAppFn.isConstOf ``Streams.mk then
+    throwError "guard_not_mk: a record update"
 
 /-- one primitive off the outside of the goal `Fr s (prim … t …)` (extended in later files) -/
 syntax "fr_peel" : tactic
@@ -270,7 +277,7 @@ macro "fr_prim" : tactic => `(tactic| first
   | (with_reducible apply Fr.of_fst_eq; (· with_reducible assumption)))
 
 /-- peel primitives, split `if`/`match`, until nothing is left -/
-macro "fr_auto" : tactic => `(tactic| repeat' (first | fr_prim | split))
+macro "fr_auto" : tactic => `(tactic| repeat' (first | fr_prim | split | dsimp only))
 
 -- ===================================================================== counters, transition_after
 
